@@ -177,6 +177,7 @@ package parser
 //@   invariant scOK(s.last, s.pos, len(s.s)) && hexDigitStart == start + 2 && hexDigitStart < s.pos
 //@   invariant s.s[start] == '0' && (s.s[start+1] == 'x' || s.s[start+1] == 'X')
 //@   invariant allHex(s.s, hexDigitStart, s.pos)
+//@   invariant ndots(s.s, start, s.pos) == 0
 //@   decreases len(s.s) - s.pos
 //@ loop 2
 //@   invariant scOK(s.last, s.pos, len(s.s)) && start < s.pos
